@@ -44,7 +44,7 @@ def reduce_item(c):
         aaps = "[" + "; ".join("mkAap %d%%N %d%%N %s" % (ids[a["in"]], ids[a["out"]], ACC[a["acc"]]) for a in c["aaps"]) + "]"
         oc = {"ok": 0, "err": 1, "panic": 2}[c["outcome"]]
         obs = "[" + "; ".join("%d%%N" % ids[b] for b in (c["out_bindings"] or [])) + "]"
-        return "reduce_verdict %s %s %s %s %d%%N %s %s" % (bs, cfg, aaps, t.rowlist(c["in"], ids), oc, obs,
+        return "reduce_verdict " + T.VM + " %s %s %s %s %d%%N %s %s" % (bs, cfg, aaps, t.rowlist(c["in"], ids), oc, obs,
                                                             t.rowlist(c["out"] or [], ids))
     return f
 
@@ -63,7 +63,7 @@ def e2e_item(c):
             "true" if p["distinct"] else "false") for p in ex["projs"]) + "]"
         oc = {"ok": 0, "exec": 1, "panic": 2}.get(res["outcome"], 9)
         exact = "false" if c["shape"] in ("by-object", "by-two") else "true"
-        return "e2e11_verdict %s %s %s %s %s %d%%N %s %s" % (
+        return "e2e11_verdict " + T.VM + " %s %s %s %s %s %d%%N %s %s" % (
             lst(ex["group_by"]), projs, lst(base.get("bindings") or []), t.rowlist(base.get("rows") or [], ids), exact, oc,
             lst(res.get("bindings") or []), t.rowlist(res.get("rows") or [], ids))
     return f
